@@ -61,9 +61,8 @@ func (t *Transaction) Confirm() error {
 
 func (t *Transaction) rollback() {
 	ctx := context.Background()
-	rollbackTransaction := t.GetRollbackTransaction()
 	VerifYieldPoint("timer:before-manager-lock")
-	t.transactionManager.Rollback(ctx, rollbackTransaction)
+	t.transactionManager.Rollback(ctx, t)
 }
 
 func (t *Transaction) StartRollbackTimer() error {
